@@ -18,7 +18,8 @@ MANIFEST = dict(
          "at quiescence), after the loop stopped every producer's select can complete; (4) shutdown composition (event loop, Stop, "
          "the driver Close that follows it, the periodic server's CLOSE handling, ticker goroutines; protocol parameters read off "
          "the generated tables): for any number of tickers and every schedule nobody sends on the closed event channel and the "
-         "periodic server is never stuck in stopTicker; each protocol element is shown necessary by a failing schedule. "
+         "periodic server is never stuck in stopTicker; since the event queue drops what is posted after it was closed (fix d3c5a50) no "
+         "schedule at all can fault; for an event CHANNEL each protocol element is shown necessary by a failing schedule. "
          "Validation and failing-schedule search: "
          "race-detector stress (vharness built with -race): 3 SMFs with duplicates, 4 report producers, 5 ms transaction timers, "
          "unanswered requests, Stop at a random point - race reports, panics, fatal exit, wait-group completion, exactly-once "
